@@ -740,8 +740,8 @@ End Witness.
 Theorem update_order_not_per_row_refuted :
   exists d s d' log n tb ups,
     step d s = (d', log, Ok n) /\ get_table d 0 = Some tb /\ update_plan None d tb [(1%nat, EAdd (ECol 1) 1)] None = inr ups
-    /\ log <> spec_per_row None (d_trigs d) 0 (EvUpdate None) (images ups)
-    /\ Permutation log (spec_per_row None (d_trigs d) 0 (EvUpdate None) (images ups)).
+    /\ log <> spec_per_row None (d_trigs d) 0 (EvUpdate (Some [1%nat])) (images ups)
+    /\ Permutation log (spec_per_row None (d_trigs d) 0 (EvUpdate (Some [1%nat])) (images ups)).
 Proof.
   exists Witness.d_order, Witness.upd. eexists. eexists. exists 2%nat, Witness.t0. eexists.
   split; [vm_compute; reflexivity|]. split; [reflexivity|]. split; [vm_compute; reflexivity|].
